@@ -223,6 +223,12 @@ def r2_open_coverage(P, rep, ctx):
     rep.check(ok, "C04.R2", fi.qual, "every given file's user block is loaded (and parsed)", fi.loc(), construct="user block loading", message="_open does not load the user block of every given path")
     opened = [(i, v) for i, v, b in f.stores(f"{rv}.__files__") if not (isinstance(v, ast.Call) and norm(v.func) == "sorted")]
     ok = bool(opened) and all(isinstance(v, ast.ListComp) and f.x(v.generators[0].iter) == fi.params[1] and not v.generators[0].ifs and "h5py.File(" in norm(v.elt) for i, v in opened)
+    if not ok:
+        # the same as a loop: `for p in paths: ret.__files__.append(h5py.File(p, "r"))` over all given paths, unconditionally
+        # (other stores of the list may only empty it: clean-up on the error path)
+        loops = [n for n in f.g.nodes if n.kind == "for" and f.x(n.stmt.iter) == fi.params[1] and isinstance(n.stmt.target, ast.Name) and len(n.stmt.body) == 1
+                 and isinstance(n.stmt.body[0], ast.Expr) and M.match(f"{rv}.__files__.append(h5py.File({n.stmt.target.id}, __m))", n.stmt.body[0].value) is not None]
+        ok = len(loops) == 1 and all(isinstance(v, ast.List) and not v.elts for i, v in opened)
     rep.check(ok, "C04.R2", fi.qual, "every given file is opened and takes part in the checks (one handle per element of `paths`)", f.loc(opened[0][0]) if opened else fi.loc(), construct="file list = one handle per given path",
               message="_open does not open one container per given path (e.g. files are keyed by patch_index first): a duplicated / forked container is silently dropped instead of making the open fail")
     emp = f.tests(f"not {fi.params[1]}", f"len({fi.params[1]}) == 0")
